@@ -99,7 +99,7 @@ func (w *PerConfigReconciler) SyncOne(ctx context.Context, namespace, name strin
 	trace.Step("Lookup job config from cache done")
 
 	// List queued Jobs for JobConfig in order of creation time.
-	rjs, err := w.listQueuedJobsForJobConfig(rjc)
+	rjs, cachedActive, err := w.listQueuedJobsForJobConfig(rjc)
 	if err != nil {
 		return errors.Wrapf(err, "cannot list jobs")
 	}
@@ -115,6 +115,14 @@ func (w *PerConfigReconciler) SyncOne(ctx context.Context, namespace, name strin
 		return errors.Wrapf(err, "cannot get activejobstore")
 	}
 	activeCount := store.CountActiveJobsForConfig(rjc)
+
+	// The store is updated by its own informer handler, which may not have observed
+	// yet that a Job is no longer active even though the cache used by this
+	// reconciler already has. Nothing else would trigger another sync once the store
+	// catches up, so sync again shortly to avoid leaving startable Jobs queued.
+	if activeCount > cachedActive {
+		w.enqueueAfter(rjc, "active_job_store_behind_cache", time.Second)
+	}
 
 	// Start all Jobs that we can start in order of oldest to newest. Note that we
 	// cannot continue on error, we have to retry the whole routine in order to
@@ -140,17 +148,20 @@ func (w *PerConfigReconciler) SyncOne(ctx context.Context, namespace, name strin
 
 func (w *PerConfigReconciler) listQueuedJobsForJobConfig(
 	rjc *execution.JobConfig,
-) ([]*execution.Job, error) {
+) (queued []*execution.Job, numActive int64, err error) {
 	labelSet := jobconfig.LabelJobsForJobConfig(rjc)
 	jobs, err := w.jobInformer.Lister().Jobs(rjc.Namespace).List(labels.SelectorFromSet(labelSet))
 	if err != nil {
-		return nil, errors.Wrapf(err, "could not list jobs")
+		return nil, 0, errors.Wrapf(err, "could not list jobs")
 	}
 
 	rjobs := make([]*execution.Job, 0, len(jobs))
 	for _, rj := range jobs {
 		if job.IsQueued(rj) {
 			rjobs = append(rjobs, rj)
+		}
+		if job.IsActive(rj) {
+			numActive++
 		}
 	}
 
@@ -159,7 +170,7 @@ func (w *PerConfigReconciler) listQueuedJobsForJobConfig(
 		return rjobs[i].CreationTimestamp.Before(&rjobs[j].CreationTimestamp)
 	})
 
-	return rjobs, nil
+	return rjobs, numActive, nil
 }
 
 func (w *PerConfigReconciler) canStartJob(
